@@ -95,6 +95,7 @@ func (fr *Frame) staticCall(fn *ssa.Function, args []*Val, bind []*Val, st *Stat
 	key := fnKey(e.g, fn)
 	sig := fn.Signature
 	spec := e.g.specs.Funcs[key]
+	fr.atAsserts(key, args, sig, st, pos)
 	if r, ok := fr.special(key, fn, args, st, pos); ok {
 		return r
 	}
@@ -197,6 +198,12 @@ func (fr *Frame) applyContract(spec *FuncSpec, fn *ssa.Function, sig *types.Sign
 	cf := fr.specFrame(spec, fn, sig, args, pkg)
 	cf.parent = nil
 	pre := st.clone()
+	// a callee that treats a parameter as not yet shared may only be handed an unshared object
+	for _, u := range spec.Unshared {
+		if v, ok := cf.env[u]; ok && !fr.isUnshared(v.T) {
+			e.oblige("call.pre", spec.Key+":unshared "+u, st.pc, "false", nil, pos, "callee assumes the object is not yet visible to other goroutines")
+		}
+	}
 	cf.lets = spec.Lets
 	// requires
 	for _, c := range spec.Requires {
@@ -377,6 +384,7 @@ func (fr *Frame) invoke(common *ssa.CallCommon, args []*Val, recv *Val, st *Stat
 		return fr.tupleOrSingle(fr.havocResults(sig, st, "errmethod"), sig)
 	}
 	e.oblige("safety", "nil interface call: "+fr.srcText(pos), st.pc, "(not (= (i-tag "+recv.T+") 0))", nil, pos, ikey)
+	fr.atAsserts(ikey, append([]*Val{recv}, args...), nil, st, pos)
 	if spec := e.g.specs.Funcs[ikey]; spec != nil {
 		var pkg *types.Package
 		if n, ok := types.Unalias(it).(*types.Named); ok {
@@ -595,7 +603,7 @@ func (fr *Frame) appendBuiltin(common *ssa.CallCommon, args []*Val, st *State, p
 	nx := e.next(st)
 	e.fact(sEq(r, nx))
 	newCap := e.fresh("appcap", "Int")
-	e.assume(st.pc, "(and (>= "+newCap+" "+newLen+") (<= "+newCap+" 281474976710656))")
+	e.assume(st.pc, "(and (>= "+newCap+" "+newLen+") (<= "+newCap+" 17592186044416))")
 	newB := e.fresh("appB", "(Array Int "+es+")")
 	if e.content {
 		e.ctr++
@@ -786,6 +794,11 @@ func verifyFunction(g *G, fn *ssa.Function, spec *FuncSpec) *FuncResult {
 			}
 		}
 		fr.frameCheck(spec, out)
+		for _, a := range spec.AtAsserts {
+			if fr.atHits[a] == 0 {
+				fr.bindErr(a.Clause, fmt.Errorf("unbound:no call of %s in %s", a.Callee, fr.key))
+			}
+		}
 		if e.ownerOn() {
 			fr.ownerExit(out, res)
 		}
@@ -912,5 +925,50 @@ func (e *Enc) emitAxioms() {
 		}
 		e.trusted["axiom ["+a.Label+"]"] = true
 		e.fact(t)
+	}
+}
+
+// atAsserts: call-site assertions declared by the function under verification ("at <callee> assert").
+func (fr *Frame) atAsserts(callee string, args []*Val, sig *types.Signature, st *State, pos token.Pos) {
+	root := fr.root()
+	if root.spec == nil || !root.isTop || len(root.spec.AtAsserts) == 0 {
+		return
+	}
+	for _, a := range root.spec.AtAsserts {
+		if a.Callee != callee {
+			continue
+		}
+		saved := root.specVars
+		root.specVars = map[string]*Val{}
+		for k, v := range saved {
+			root.specVars[k] = v
+		}
+		var ptypes []types.Type
+		if sig != nil && sig.Recv() != nil {
+			ptypes = append(ptypes, sig.Recv().Type())
+		}
+		if sig != nil {
+			for i := 0; i < sig.Params().Len(); i++ {
+				ptypes = append(ptypes, sig.Params().At(i).Type())
+			}
+		}
+		for i, v := range args {
+			vv := *v
+			if vv.GoT == nil && i < len(ptypes) {
+				vv.GoT = ptypes[i]
+			}
+			root.specVars[fmt.Sprintf("arg%d", i)] = &vv
+		}
+		sb := root.curBlock
+		root.curBlock = nil
+		t, err := root.evalClause(a.Clause, st, root.entry, nil, nil)
+		root.curBlock = sb
+		root.specVars = saved
+		if err != nil {
+			fr.bindErr(a.Clause, err)
+			continue
+		}
+		fr.e.oblige("at", callee+":"+a.Clause.Label, st.pc, t, a.Clause.Props, pos, fr.srcText(pos))
+		root.atHits[a]++
 	}
 }
